@@ -128,7 +128,7 @@ func doLoad(dir string, c *ld.Case) loadResult {
 		return loadResult{panic: r.Panic}
 	}
 	if r.Err != nil {
-		return loadResult{isErr: true, errMsg: r.Err.Error(), digest: "error"}
+		return loadResult{isErr: true, errMsg: strings.ReplaceAll(r.Err.Error(), dir, "@DIR@"), digest: "error"}
 	}
 	h := sha256.New()
 	var y, j []byte
@@ -143,8 +143,9 @@ func doLoad(dir string, c *ld.Case) loadResult {
 	if e1 != nil || e2 != nil {
 		return loadResult{isErr: true, errMsg: fmt.Sprint(e1, e2), digest: "marshal-error"}
 	}
-	h.Write(y) //nolint:errcheck
-	h.Write(j) //nolint:errcheck
+	// the same input is loaded from several directories: paths are compared relative to the case directory
+	h.Write([]byte(strings.ReplaceAll(string(y), dir, "@DIR@"))) //nolint:errcheck
+	h.Write([]byte(strings.ReplaceAll(string(j), dir, "@DIR@"))) //nolint:errcheck
 	// also fields that are not rendered
 	fmt.Fprintf(h, "%v|%v|%v", r.Project.Profiles, r.Project.DisabledServiceNames(), r.Project.Environment["COMPOSE_PROJECT_NAME"])
 	return loadResult{digest: hex.EncodeToString(h.Sum(nil)[:12])}
@@ -155,6 +156,8 @@ type groupSpec struct {
 	GoMaxProcs int      `json:"gomaxprocs"`
 	Storm      bool     `json:"storm"`
 }
+
+var groupSeq int
 
 func runGroup(s *core.Shard, g groupSpec) {
 	runtime.GOMAXPROCS(g.GoMaxProcs)
@@ -173,7 +176,7 @@ func runGroup(s *core.Shard, g groupSpec) {
 			continue
 		}
 		c := input(in[0], in[1])
-		dir := filepath.Join(base, fmt.Sprintf("in-%d-%d", in[0], in[1]))
+		dir := filepath.Join(base, fmt.Sprintf("solo%d-in-%d-%d", groupSeq, in[0], in[1]))
 		_ = os.MkdirAll(dir, 0o755)
 		if err := ld.Materialise(dir, c); err != nil {
 			s.Inconclusive("materialise: " + err.Error())
@@ -196,6 +199,19 @@ func runGroup(s *core.Shard, g groupSpec) {
 		}
 		prep[in] = p
 	}
+	// every concurrent load reads its own fresh copy of the input, at a path this process has never
+	// loaded before: per-process state keyed by file name (the obsolete-version warning list) is then
+	// written, not only read, by the concurrent loads
+	groupSeq++
+	dirs := make([]string, len(g.Inputs))
+	for i, in := range g.Inputs {
+		dirs[i] = filepath.Join(base, fmt.Sprintf("g%d-%d-in-%d-%d", groupSeq, i, in[0], in[1]))
+		_ = os.MkdirAll(dirs[i], 0o755)
+		if err := ld.Materialise(dirs[i], prep[in].c); err != nil {
+			s.Inconclusive("materialise: " + err.Error())
+			return
+		}
+	}
 	results := make([]loadResult, len(g.Inputs))
 	var start, done sync.WaitGroup
 	barrier := make(chan struct{})
@@ -216,7 +232,7 @@ func runGroup(s *core.Shard, g groupSpec) {
 			defer done.Done()
 			start.Done()
 			<-barrier
-			results[i] = doLoad(p.dir, p.c)
+			results[i] = doLoad(dirs[i], p.c)
 		}(i, prep[in])
 	}
 	start.Wait()
